@@ -237,6 +237,22 @@ Theorem C15_limit_bytes :
 Proof. exact limit_bytes. Qed.
 Print Assumptions C15_limit_bytes.
 
+(* The digest probe of FetchReference (manifest GET without Docker-Content-Digest, the index of
+   the referrers tag schema): rejects exactly the bodies over the limit and never hands out a
+   truncated one, but -- known finding over-read-digest-probe -- reads limit+1 bytes of them. *)
+Theorem C15_digest_probe_partial :
+  forall limit body,
+    (snd (digest_probe limit body) = true <-> (eff_limit limit < Z.of_nat (length body))%Z) /\
+    (snd (digest_probe limit body) = false -> fst (digest_probe limit body) = body) /\
+    (Z.of_nat (length (fst (digest_probe limit body))) <= eff_limit limit + 1)%Z.
+Proof. exact digest_probe_spec. Qed.
+Print Assumptions C15_digest_probe_partial.
+
+Theorem C15_digest_probe_over_read_refuted :
+  exists limit body, (eff_limit limit < Z.of_nat (length (fst (digest_probe limit body))))%Z.
+Proof. exact digest_probe_refuted. Qed.
+Print Assumptions C15_digest_probe_over_read_refuted.
+
 (* limitSize (referrers tag schema path) rejects exactly the descriptors larger than the limit *)
 Theorem C15_limit_size :
   forall limit size, limit_size_rejects limit size = true <-> (eff_limit limit < size)%Z.
